@@ -211,7 +211,15 @@ int main(int argc, char *argv[])
       usage(callname, stderr);
       return EXIT_FAILURE;
     }
-    n = atol(argv[0]);
+    {
+      char *end;
+      n = strtol(argv[0], &end, 10);
+      if (end == argv[0] || *end || n < 0) {
+	fprintf(stderr,"invalid number `%s'\n", argv[0]);
+	usage(callname, stderr);
+	return EXIT_FAILURE;
+      }
+    }
 
   next:
     argc -= opt+1;
